@@ -207,15 +207,33 @@ func checkC06(c *Ctx) {
 		}
 		seen := map[string]bool{}
 		var bad []string
-		instrsOf(fn, func(i ssa.Instruction) {
+		dvn := c.deepViewOf(fn, 2)
+		dvn.each(func(i ssa.Instruction, fr *frame, seq int) {
 			st, ok := i.(*ssa.Store)
 			if !ok {
 				return
 			}
 			if chk, ok := want[ir.FieldID(st.Addr)]; ok {
 				seen[ir.FieldID(st.Addr)] = true
-				if good, why := chk(st.Val); !good {
-					bad = append(bad, why)
+				val := st.Val
+				if ir.FieldID(st.Addr) == sigPkg+".WINCertificate.Length" {
+					// 24 + len(x) with x resolving to nil is 24
+					a := affineOf(val, 0)
+					for sym, cf := range a.T {
+						if lc, isCall := a.Sym[sym].(*ssa.Call); isCall && cf == 1 && strings.HasPrefix(sym, "len(") {
+							if r := dvn.resolve(ir.StripConv(lc.Call.Args[0]), fr); ir.IsNilConst(r.v) {
+								delete(a.T, sym)
+							}
+						}
+					}
+					if a.isConst() && a.K == 24 {
+						return
+					}
+				}
+				if good, why := chk(dvn.resolve(val, fr).v); !good {
+					if good2, _ := chk(val); !good2 {
+						bad = append(bad, why)
+					}
 				}
 			}
 		})
@@ -227,220 +245,33 @@ func checkC06(c *Ctx) {
 		c.R.Check(len(bad) == 0, "I4.const", name(fn), "defaults", c.Pos(fn.Pos()), "a new descriptor has dwLength 24, revision 0x0200, type 0x0EF1, the PKCS7 type GUID and a fresh timestamp", strings.Join(bad, "; "))
 	}
 
-	// ---- I3, I5, I6, I7 in SignEFIVariable
-	fn := c.Fn("I3.order", "efi/signature.SignEFIVariable")
-	if fn == nil {
-		return
-	}
-	fname := name(fn)
-	vP := paramByNamed(fn, M+"/efivar.Efivar")
-	var sign *ssa.Call
-	instrsOf(fn, func(i ssa.Instruction) {
-		if call, ok := i.(*ssa.Call); ok && ir.CallID(call) == M+"/pkcs7.SignPKCS7" {
-			sign = call
-		}
-	})
-	if sign == nil || vP == nil {
-		c.R.Undecf("I3.order", fname, "SignPKCS7", c.Pos(fn.Pos()), "the signing call must be identifiable", "no call of pkcs7.SignPKCS7")
-		return
-	}
-	// the buffer that is signed
-	content := sign.Call.Args[3]
-	var signedBuf ssa.Value
-	if bc, ok := content.(*ssa.Call); ok && ir.CallID(bc) == "bytes.Buffer.Bytes" {
-		signedBuf = bc.Call.Args[0]
-	}
-	tbl := c.codecTable(fn, false)
-	var signedTbl []codecEntry
-	for _, e := range tbl {
-		if e.call != nil && ir.CallID(e.call) == "encoding/binary.Write" && signedBuf != nil && ir.RootOf(ir.StripIface(e.onSrc)) == ir.RootOf(signedBuf) {
-			signedTbl = append(signedTbl, e)
-		}
-	}
-	var bad []string
-	var authObj ssa.Value
-	if signedBuf == nil {
-		bad = append(bad, "the content passed to SignPKCS7 is not the Bytes() of a local buffer")
-	} else if len(signedTbl) != 5 {
-		bad = append(bad, fmt.Sprintf("%d values are written to the signed buffer, want name, GUID, attributes, timestamp, payload: %s", len(signedTbl), tableString(signedTbl)))
-	} else {
-		for _, e := range signedTbl {
-			if e.order != "LE" {
-				bad = append(bad, "a value of the signed buffer is not written little endian")
-			}
-		}
-		// 0: name bytes (UTF-16LE without terminator)
-		s0 := c.Slicer().Slice(signedTbl[0].val)
-		if !s0[vP] || !ir.HasField(s0, M+"/efivar.Efivar.Name") {
-			bad = append(bad, "first value does not derive from the variable name")
-		}
-		if len(ir.CallsIn(s0, utilP+".MarshalUtf16Var")) > 0 {
-			bad = append(bad, "the name is encoded with the terminating NUL (MarshalUtf16Var); the signed name is unterminated")
-		}
-		if ir.HasField(s0, M+"/efivar.Efivar.GUID") || ir.HasField(s0, M+"/efivar.Efivar.Attributes") {
-			bad = append(bad, "first value also derives from GUID/attributes")
-		}
-		// 1: GUID, unmodified
-		if signedTbl[1].what != "field:"+M+"/efivar.Efivar.GUID" && !(ir.HasField(c.Slicer().Slice(signedTbl[1].val), M+"/efivar.Efivar.GUID") && ir.NamedTypeID(signedTbl[1].val.Type()) == utilP+".EFIGUID") {
-			bad = append(bad, "second value is not the vendor GUID structure ("+signedTbl[1].String()+")")
-		}
-		// 2: attributes field itself
-		if signedTbl[2].what != "field:"+M+"/efivar.Efivar.Attributes" {
-			bad = append(bad, "third value is not the variable's attribute mask as given ("+signedTbl[2].String()+")")
-		}
-		// 3: the descriptor's timestamp
-		if signedTbl[3].what != "field:"+sigPkg+".EFIVariableAuthentication2.Time" {
-			bad = append(bad, "fourth value is not the descriptor's timestamp ("+signedTbl[3].String()+")")
-		} else if ld, ok := signedTbl[3].val.(*ssa.UnOp); ok {
-			if fa, ok := ld.X.(*ssa.FieldAddr); ok {
-				authObj = fa.X
-			}
-		}
-		// 4: payload = bytes marshalled from m
-		s4 := c.Slicer().Slice(signedTbl[4].val)
-		mOK := false
-		for v := range s4 {
-			if a, ok := v.(*ssa.Alloc); ok {
-				for _, r := range *a.Referrers() {
-					if call, ok := r.(ssa.CallInstruction); ok && call.Common().IsInvoke() && call.Common().Method.Name() == "Marshal" && ir.NamedTypeID(call.Common().Value.Type()) == M+"/efivar.Marshallable" {
-						mOK = true
-					}
-				}
-			}
-		}
-		if !mOK {
-			bad = append(bad, "fifth value is not the payload marshalled from m")
-		}
-	}
-	c.R.Check(len(bad) == 0, "I3.order", fname, "signed-buffer", c.IPos(sign), "the signed buffer is name (UTF-16LE, unterminated) || GUID || attributes || timestamp || payload, little endian", strings.Join(bad, "; "))
-
-	// I5: detached content type, stripped ContentInfo, length
-	bad = nil
-	if !isGlobalLoad(sign.Call.Args[2], M+"/pkcs7.OIDData") {
-		bad = append(bad, "the content type passed to SignPKCS7 is not OIDData (the SignedData must be detached)")
-	}
-	var certData ssa.Value
-	var lenAdd ssa.Value
-	instrsOf(fn, func(i ssa.Instruction) {
-		st, ok := i.(*ssa.Store)
-		if !ok {
-			return
-		}
-		switch ir.FieldID(st.Addr) {
-		case sigPkg + ".WinCertificateUEFIGUID.CertData":
-			certData = st.Val
-		case sigPkg + ".WINCertificate.Length":
-			lenAdd = st.Val
-		}
-	})
-	if certData == nil {
-		bad = append(bad, "CertData is not set")
-	} else {
-		sl := c.Slicer().Slice(certData)
-		pci := ir.CallsIn(sl, M+"/pkcs7.ParseContentInfo")
-		if len(pci) == 0 || !sl[sign] {
-			bad = append(bad, "CertData is not the SignPKCS7 result with the outer ContentInfo stripped (ParseContentInfo)")
-		}
-	}
-	if lenAdd == nil {
-		bad = append(bad, "dwLength is not updated")
-	} else if certData != nil {
-		a := affineOf(lenAdd, 0)
-		okLen := false
-		for k, v := range a.T {
-			if v == 1 && strings.HasPrefix(k, "len(") {
-				if lc, ok := a.Sym[k].(*ssa.Call); ok && ir.StripConv(lc.Call.Args[0]) == ir.StripConv(certData) {
-					okLen = true
-				}
-			}
-		}
-		oldOK := false
-		for k, v := range a.T {
-			if v == 1 && strings.HasSuffix(k, ".Length") {
-				oldOK = true
-			}
-		}
-		if !okLen || !oldOK || a.K != 0 || len(a.T) != 2 {
-			bad = append(bad, "dwLength is "+a.String()+", want the initial length plus len() of exactly the bytes stored as CertData")
-		}
-	}
-	c.R.Check(len(bad) == 0, "I5.length", fname, "CertData+dwLength", c.IPos(sign), "CertData is the bare SignedData of a detached signature and dwLength grows by exactly its length", strings.Join(bad, "; "))
-
-	// I6/I7: one descriptor object: its Time is signed, it is marshalled first into the result, then the unchanged payload
-	bad = nil
-	var marshals []ssa.CallInstruction
-	instrsOf(fn, func(i ssa.Instruction) {
-		call, ok := i.(ssa.CallInstruction)
-		if !ok {
-			return
-		}
-		id := ir.CallID(call)
-		if id == sigPkg+".EFIVariableAuthentication2.Marshal" || call.Common().IsInvoke() && call.Common().Method.Name() == "Marshal" {
-			marshals = append(marshals, call)
-		}
-	})
-	// result buffer: the value returned as the Marshallable
-	var resBuf ssa.Value
-	for _, r := range ir.Returns(fn) {
-		if len(r.Results) == 3 && !ir.IsNilConst(r.Results[1]) {
-			resBuf = ir.RootOf(ir.StripIface(r.Results[1]))
-			if authObj != nil && ir.StripConv(r.Results[0]) != ir.StripConv(authObj) {
-				bad = append(bad, "the descriptor returned is not the one whose timestamp was signed")
-			}
-		}
-	}
-	var into []ssa.CallInstruction
-	for _, m := range marshals {
-		args := ir.CallArgs(m)
-		if resBuf != nil && ir.RootOf(ir.StripIface(args[len(args)-1])) == resBuf {
-			into = append(into, m)
-		}
-	}
-	sortCalls(into)
-	switch {
-	case resBuf == nil:
-		bad = append(bad, "the returned Marshallable is not a local buffer")
-	case len(into) != 2:
-		bad = append(bad, fmt.Sprintf("%d Marshal calls fill the result, want descriptor then payload", len(into)))
-	default:
-		if ir.CallID(into[0]) != sigPkg+".EFIVariableAuthentication2.Marshal" {
-			bad = append(bad, "the descriptor is not marshalled first")
-		} else if authObj != nil && ir.StripConv(into[0].Common().Args[0]) != ir.StripConv(authObj) {
-			bad = append(bad, "the descriptor marshalled into the result is a different object than the one whose timestamp was signed (two clock readings)")
-		}
-		if !into[1].Common().IsInvoke() || into[1].Common().Value != ssa.Value(paramByNamed(fn, M+"/efivar.Marshallable")) {
-			bad = append(bad, "the payload appended after the descriptor is not m itself")
-		}
-		if !precedesInCFG(fn, into[0], into[1]) {
-			bad = append(bad, "payload is marshalled before the descriptor")
-		}
-	}
-	// no store to authvar.Time after construction
-	instrsOf(fn, func(i ssa.Instruction) {
-		if st, ok := i.(*ssa.Store); ok && ir.FieldID(st.Addr) == sigPkg+".EFIVariableAuthentication2.Time" {
-			bad = append(bad, "the timestamp is reassigned at "+c.IPos(st))
-		}
-	})
-	if authObj != nil {
-		if call, ok := ir.StripConv(authObj).(*ssa.Call); !ok || ir.CallID(call) != sigPkg+".NewEFIVariableAuthentication2" {
-			bad = append(bad, "the descriptor is not created by NewEFIVariableAuthentication2")
-		} else if !precedesInCFG(fn, call, sign) {
-			bad = append(bad, "the descriptor (and its timestamp) is created after signing")
-		}
-	}
-	c.R.Check(len(bad) == 0, "I6.binding", fname, "descriptor+payload", c.Pos(fn.Pos()), "one descriptor object: its timestamp is signed, it is emitted first, followed by the unchanged payload", strings.Join(bad, "; "))
+	c.signEFIVariableRules()
 
 	// descriptor writer layout (shared with C10)
 	if w := c.Fn("I7.layout", "efi/signature.WriteEFIVariableAuthencation2"); w != nil {
-		wl := c.flatten(c.codecTable(w, false), false, 0)
-		want := []string{"Year", "Month", "Day", "Hour", "Minute", "Second", "Pad1", "Nanosecond", "TimeZone", "Daylight", "Pad2", "Length", "Revision", "CertType", "Certificate", "Data1", "Data2", "Data3", "Data4", "CertData"}
-		ok, det := len(wl) == len(want), fmt.Sprintf("%d wire positions: %s", len(wl), leavesString(wl))
+		all := c.flatten(c.codecTable(w, false), false, 0)
+		// the fixed-width positions decide the layout; the variable runs (an emptied
+		// header body, the certificate data) are judged by the C10 rules
+		var wl []leaf
+		for _, l := range all {
+			if l.width >= 0 {
+				wl = append(wl, l)
+			}
+		}
+		want := []string{"Year", "Month", "Day", "Hour", "Minute", "Second", "Pad1", "Nanosecond", "TimeZone", "Daylight", "Pad2", "Length", "Revision", "CertType", "Data1", "Data2", "Data3", "Data4"}
+		if why := c.codecOpaque(w, 0); why != "" {
+			c.R.Infof("I7.layout", name(w), "descriptor-writer", c.Pos(w.Pos()), "not decided for this shape: the writer uses "+why)
+			want = nil
+		}
+		ok, det := len(wl) == len(want) || want == nil, fmt.Sprintf("%d fixed-width wire positions: %s", len(wl), leavesString(wl))
 		for k := 0; ok && k < len(want); k++ {
 			if !strings.HasSuffix(wl[k].id, "."+want[k]) || (wl[k].order != "LE" && wl[k].order != "-") {
 				ok, det = false, fmt.Sprintf("position %d is %s, want %s", k+1, wl[k], want[k])
 			}
 		}
-		c.R.Check(ok, "I7.layout", name(w), "descriptor-writer", c.Pos(w.Pos()), "the descriptor is written as EFI_TIME, dwLength, wRevision, wCertificateType, type GUID, CertData (little endian)", det)
+		if want != nil {
+			c.R.Check(ok, "I7.layout", name(w), "descriptor-writer", c.Pos(w.Pos()), "the descriptor is written as EFI_TIME, dwLength, wRevision, wCertificateType, type GUID, CertData (little endian)", det)
+		}
 	}
 	c.R.Floor("I1.utc", 1)
 	c.R.Floor("I4.const", 4)
@@ -461,3 +292,246 @@ func sortCalls(cs []ssa.CallInstruction) {
 
 var _ = constant.MakeBool
 var _ = token.ADD
+
+// signEFIVariableRules (I3, I5, I6): judged on the deep view of SignEFIVariable,
+// so helper extraction (signed-data assembly, name encoding, detached signing)
+// does not change what the rule sees.
+func (c *Ctx) signEFIVariableRules() {
+	utilP := M + "/efi/util"
+	fn := c.Fn("I3.order", "efi/signature.SignEFIVariable")
+	if fn == nil {
+		return
+	}
+	fname := name(fn)
+	dv := c.deepViewOf(fn, 3)
+	vP := paramByNamed(fn, M+"/efivar.Efivar")
+	mP := paramByNamed(fn, M+"/efivar.Marshallable")
+	signs := dv.callsTo(M + "/pkcs7.SignPKCS7")
+	if len(signs) != 1 || vP == nil || mP == nil {
+		c.R.Undecf("I3.order", fname, "SignPKCS7", c.Pos(fn.Pos()), "the signing call must be identifiable", fmt.Sprintf("%d calls of pkcs7.SignPKCS7 in the call tree of SignEFIVariable", len(signs)))
+		return
+	}
+	sign := signs[0].i.(*ssa.Call)
+	sfr := signs[0].fr
+	// the buffer whose bytes are signed
+	content := dv.resolve(sign.Call.Args[3], sfr)
+	var bad []string
+	var signedBuf dval
+	haveBuf := false
+	if bc, ok := content.v.(*ssa.Call); ok && ir.CallID(bc) == "bytes.Buffer.Bytes" {
+		signedBuf, haveBuf = dv.objectOf(bc.Call.Args[0], content.fr), true
+	}
+	var authObj dval
+	haveAuth := false
+	if !haveBuf {
+		c.R.Infof("I3.order", fname, "signed-buffer", c.IPos(sign), "not decided for this shape: the signed content is not the Bytes() of a buffer filled with encoding/binary.Write")
+	} else {
+		var ws []deepWrite
+		for _, w := range dv.binaryWrites() {
+			if w.stream.same(signedBuf) {
+				ws = append(ws, w)
+			}
+		}
+		if len(ws) == 0 {
+			c.R.Infof("I3.order", fname, "signed-buffer", c.IPos(sign), "not decided for this shape: the signed buffer is not filled with encoding/binary.Write")
+		} else {
+			if len(ws) != 5 {
+				bad = append(bad, fmt.Sprintf("%d values are written to the signed buffer, want name, GUID, attributes, timestamp, payload", len(ws)))
+			} else {
+				for _, w := range ws {
+					if w.order != "LE" {
+						bad = append(bad, "a value of the signed buffer is not written little endian")
+					}
+				}
+				s0 := dv.sliceDeep(ws[0].datum.v, ws[0].datum.fr)
+				if !s0[vP] || !ir.HasField(s0, M+"/efivar.Efivar.Name") {
+					bad = append(bad, "first value does not derive from the variable name")
+				}
+				if len(ir.CallsIn(s0, utilP+".MarshalUtf16Var")) > 0 {
+					bad = append(bad, "the name is encoded with the terminating NUL (MarshalUtf16Var); the signed name is unterminated")
+				}
+				if ir.HasField(s0, M+"/efivar.Efivar.GUID") || ir.HasField(s0, M+"/efivar.Efivar.Attributes") {
+					bad = append(bad, "first value also derives from GUID/attributes")
+				}
+				if fieldIDOf(ws[1].datum.v) != M+"/efivar.Efivar.GUID" || ir.NamedTypeID(ws[1].datum.v.Type()) != utilP+".EFIGUID" {
+					bad = append(bad, "second value is not the vendor GUID structure of the variable, as given")
+				}
+				if fieldIDOf(ws[2].datum.v) != M+"/efivar.Efivar.Attributes" {
+					bad = append(bad, "third value is not the variable's attribute mask as given")
+				}
+				if fieldIDOf(ws[3].datum.v) != sigPkg+".EFIVariableAuthentication2.Time" {
+					bad = append(bad, "fourth value is not the descriptor's timestamp")
+				} else if ld, ok := ir.StripConv(ws[3].datum.v).(*ssa.UnOp); ok {
+					if fa, ok := ld.X.(*ssa.FieldAddr); ok {
+						authObj, haveAuth = dv.resolve(fa.X, ws[3].datum.fr), true
+					}
+				}
+				// payload: bytes of a buffer that m.Marshal filled
+				s4 := dv.sliceDeep(ws[4].datum.v, ws[4].datum.fr)
+				mOK := false
+				for v := range s4 {
+					if a, ok := v.(*ssa.Alloc); ok && ir.NamedTypeID(a.Type()) == "bytes.Buffer" {
+						for _, r := range *a.Referrers() {
+							if call, ok := r.(ssa.CallInstruction); ok && call.Common().IsInvoke() && call.Common().Method.Name() == "Marshal" {
+								mOK = true
+							}
+						}
+					}
+				}
+				if !mOK && !s4[mP] {
+					bad = append(bad, "fifth value is not the payload marshalled from m")
+				}
+			}
+			c.R.Check(len(bad) == 0, "I3.order", fname, "signed-buffer", c.IPos(sign), "the signed buffer is name (UTF-16LE, unterminated) || GUID || attributes || timestamp || payload, little endian", strings.Join(bad, "; "))
+		}
+	}
+
+	// I5: detached content type, stripped ContentInfo, length
+	bad = nil
+	oid := dv.resolve(sign.Call.Args[2], sfr)
+	if !isGlobalLoad(oid.v, M+"/pkcs7.OIDData") {
+		bad = append(bad, "the content type passed to SignPKCS7 is not OIDData (the SignedData must be detached)")
+	}
+	cds := dv.storesToField(sigPkg + ".WinCertificateUEFIGUID.CertData")
+	lens := dv.storesToField(sigPkg + ".WINCertificate.Length")
+	var certData dval
+	haveCD := false
+	for _, di := range cds {
+		st := di.i.(*ssa.Store)
+		// only the store on the descriptor object, not constructor defaults of nil
+		if ir.IsNilConst(st.Val) {
+			continue
+		}
+		certData, haveCD = dv.resolve(st.Val, di.fr), true
+	}
+	if !haveCD {
+		bad = append(bad, "CertData is not set")
+	} else {
+		sl := dv.sliceDeep(certData.v, certData.fr)
+		if len(ir.CallsIn(sl, M+"/pkcs7.ParseContentInfo")) == 0 || !sl[sign] {
+			bad = append(bad, "CertData is not the SignPKCS7 result with the outer ContentInfo stripped (ParseContentInfo)")
+		}
+	}
+	okLen := false
+	detLen := "dwLength is not updated with the length of the signature"
+	for _, di := range lens {
+		st := di.i.(*ssa.Store)
+		a := affineOf(st.Val, 0)
+		// new = old + len(x)  or  new = 24 + len(x), with x the bytes stored as CertData
+		var lenSym string
+		for k, v := range a.T {
+			if v == 1 && strings.HasPrefix(k, "len(") {
+				lenSym = k
+			}
+		}
+		if lenSym == "" {
+			continue // constructor default
+		}
+		lc, isCall := a.Sym[lenSym].(*ssa.Call)
+		if !isCall {
+			continue
+		}
+		x := dv.resolve(ir.StripConv(lc.Call.Args[0]), di.fr)
+		sameBytes := haveCD && ir.StripConv(x.v) == ir.StripConv(certData.v)
+		rest := a.clone()
+		delete(rest.T, lenSym)
+		baseOK := false
+		switch {
+		case len(rest.T) == 0 && rest.K == 24:
+			baseOK = true
+		case len(rest.T) == 1 && rest.K == 0:
+			for k, v := range rest.T {
+				if v == 1 && strings.HasSuffix(k, ".Length") {
+					baseOK = true
+				}
+			}
+		}
+		if sameBytes && baseOK {
+			okLen = true
+		} else {
+			detLen = "dwLength is " + a.String() + ", want the initial length (24) plus len() of exactly the bytes stored as CertData"
+		}
+	}
+	if !okLen {
+		bad = append(bad, detLen)
+	}
+	c.R.Check(len(bad) == 0, "I5.length", fname, "CertData+dwLength", c.IPos(sign), "CertData is the bare SignedData of a detached signature and dwLength grows by exactly its length", strings.Join(bad, "; "))
+
+	// I6: one descriptor object: its timestamp is signed, it is emitted first, then the unchanged payload
+	bad = nil
+	var resBuf dval
+	haveRes := false
+	for _, r := range ir.Returns(fn) {
+		if len(r.Results) == 3 && !ir.IsNilConst(r.Results[1]) {
+			resBuf, haveRes = dv.objectOf(r.Results[1], dv.root), true
+			// conversions of a local buffer: efibytes(buf) is a value copy of the buffer
+			if ld, ok := ir.StripConv(resBuf.v).(*ssa.UnOp); ok {
+				resBuf = dv.objectOf(ld.X, resBuf.fr)
+			}
+			if haveAuth {
+				ro := dv.resolve(ir.StripConv(r.Results[0]), dv.root)
+				if ir.StripConv(ro.v) != ir.StripConv(authObj.v) {
+					bad = append(bad, "the descriptor returned is not the one whose timestamp was signed")
+				}
+			}
+		}
+	}
+	type marshalCall struct {
+		di   dinstr
+		desc bool
+		recv dval
+	}
+	var into []marshalCall
+	for _, di := range dv.order {
+		call, ok := di.i.(ssa.CallInstruction)
+		if !ok {
+			continue
+		}
+		isDesc := ir.CallID(call) == sigPkg+".EFIVariableAuthentication2.Marshal"
+		isIface := call.Common().IsInvoke() && call.Common().Method.Name() == "Marshal"
+		if !isDesc && !isIface {
+			continue
+		}
+		args := ir.CallArgs(call)
+		dst := dv.objectOf(args[len(args)-1], di.fr)
+		if ct, ok := dst.v.(*ssa.ChangeType); ok {
+			dst = dv.objectOf(ct.X, dst.fr)
+		}
+		if haveRes && dst.same(resBuf) {
+			into = append(into, marshalCall{di, isDesc, dv.resolve(ir.StripConv(args[0]), di.fr)})
+		}
+	}
+	switch {
+	case !haveRes:
+		c.R.Infof("I6.binding", fname, "descriptor+payload", c.Pos(fn.Pos()), "not decided for this shape: the returned Marshallable is not a local buffer")
+		return
+	case len(into) != 2:
+		bad = append(bad, fmt.Sprintf("%d Marshal calls fill the result, want descriptor then payload", len(into)))
+	default:
+		if !into[0].desc {
+			bad = append(bad, "the descriptor is not marshalled first")
+		} else if haveAuth && ir.StripConv(into[0].recv.v) != ir.StripConv(authObj.v) {
+			bad = append(bad, "the descriptor marshalled into the result is a different object than the one whose timestamp was signed (two clock readings)")
+		}
+		if into[1].desc || into[1].recv.v != ssa.Value(mP) || into[1].recv.fr != dv.root {
+			bad = append(bad, "the payload appended after the descriptor is not m itself")
+		}
+		if into[0].di.seq > into[1].di.seq {
+			bad = append(bad, "payload is marshalled before the descriptor")
+		}
+	}
+	for _, di := range dv.storesToField(sigPkg + ".EFIVariableAuthentication2.Time") {
+		if di.fr.fn == fn {
+			bad = append(bad, "the timestamp is reassigned at "+c.IPos(di.i))
+		}
+	}
+	if haveAuth {
+		if call, ok := ir.StripConv(authObj.v).(*ssa.Call); !ok || ir.CallID(call) != sigPkg+".NewEFIVariableAuthentication2" {
+			// the constructor may be inlined into the view: accept a fresh allocation too
+			if _, isAlloc := ir.StripConv(authObj.v).(*ssa.Alloc); !isAlloc {
+				bad = append(bad, "the descriptor is not created by NewEFIVariableAuthentication2")
+			}
+		}
+	}
+	c.R.Check(len(bad) == 0, "I6.binding", fname, "descriptor+payload", c.Pos(fn.Pos()), "one descriptor object: its timestamp is signed, it is emitted first, followed by the unchanged payload", strings.Join(bad, "; "))
+}
